@@ -29,6 +29,10 @@ def run(ck):
     ck.run_rule(q7_uci_query)
     ck.run_rule(q3_query_matching)
     ck.run_rule(q6_writers)
+    # the "matches exactly one legal move" clause rests on the resolution step of C02: the query is tested against the legal move set of the
+    # current position, one match is applied, none / several are the two errors
+    from . import c02 as _c02
+    ck.run_rule(_c02.u6_unique_resolution)
 
 
 def piece_letters(ck):
